@@ -94,7 +94,7 @@ def c_group(g: dict) -> str:
 def wf_expected(g: dict) -> bool:
     for c in g['contents']:
         if c['kind'] == 'transaction' and c.get('parameters'):
-            if not 1 <= len(c['parameters']['entrypoint']) <= 31:
+            if not 1 <= len(c['parameters']['entrypoint'].encode('utf-8')) <= 31:
                 return False
     return True
 
@@ -174,6 +174,14 @@ def systematic_groups(rng):
     for kind in G.MANAGER_KINDS:
         for tz in ('tz1', 'tz2', 'tz3', 'tz4'):
             out.append({'branch': G.rand_block_hash(rng), 'contents': [G.rand_content(rng, kind, source=G.rand_pkh(rng, (tz,)))]})
+    for txt in ['café', 'жук', '中文', 'a\U0001F600b', '€', 'naïve text with ß and ñ', '\u00a0']:
+        out.append({'branch': G.rand_block_hash(rng), 'contents': [{'kind': 'failing_noop', 'arbitrary': txt}]})
+        c = G.rand_content(rng, 'transaction')
+        c['parameters'] = {'entrypoint': txt[:10], 'value': {'int': '1'}}
+        out.append({'branch': G.rand_block_hash(rng), 'contents': [c]})
+        c = G.rand_content(rng, 'transfer_ticket')
+        c['entrypoint'] = txt
+        out.append({'branch': G.rand_block_hash(rng), 'contents': [c]})
     # values around Unit x entrypoints around default, all in ONE shape of content so that a wrongly elided argument collides
     # with the plain-Unit group (same header fields, same destination)
     import copy
